@@ -352,7 +352,10 @@ func (w *World) Check(out *vs.Outcome) ([]string, uint64) {
 					admitted := map[string]bool{}
 					for _, c2 := range w.callers {
 						for _, r2 := range c2.Reqs {
-							if r2.Started && (r2.Sent || (r2.Returned && r2.Err == nil)) {
+							// a request that ended with its own context error before it was enqueued
+							// may have created its shard (and so taken a slot) all the same
+							ctxEnded := r2.Returned && isCtxErr(r2.Err) && r2.CtxErrAtReturn != nil
+							if r2.Started && (r2.Sent || (r2.Returned && r2.Err == nil) || ctxEnded) {
 								admitted[comboOf(sc.Keys, c2.Spec.Metadata)] = true
 							}
 						}
